@@ -435,10 +435,18 @@ pub fn run_type<T: Model>(out: &mut Out, r: &mut Rng, n: usize, which: &str) {
             if let Some(els) = elems {
                 if !els.is_empty() {
                     let tail = match r.below(4) { 0 => Value::from(3), 1 => Value::symbol("x"), 2 => Value::Nil, _ => Value::string("t") };
-                    let imp = Value::append(els, tail);
+                    let imp = Value::append(els.clone(), tail.clone());
                     out.oracle_checks += 1;
                     if let Some(_) = de_case::<T>(out, &imp, true) {
                         out.fail("improper-accepted", format!("an improper list is accepted where a sequence or tuple is expected ({})", tyname), format!("de {} ; {}", T::ty(), enc_case_value(&imp)), json!({}));
+                    }
+                    // ... also when it is longer than what a fixed-size visitor reads
+                    let mut longer = els;
+                    longer.push(Value::from(7));
+                    let imp2 = Value::append(longer, tail);
+                    out.oracle_checks += 1;
+                    if let Some(_) = de_case::<T>(out, &imp2, true) {
+                        out.fail("improper-accepted", format!("an improper list longer than the expected tuple is accepted ({})", tyname), format!("de {} ; {}", T::ty(), enc_case_value(&imp2)), json!({}));
                     }
                 }
             }
